@@ -308,7 +308,26 @@ impl Monitor for C12 {
                 3 => pool.reward_last_updated_timestamp + w.r.gen_range(0..1_000_000),
                 _ => w.now() as u64,
             };
-            let (pool_v, pos_v, tl_v, tu_v) = (pool_b.to_vec(), pos_b.to_vec(), tl.to_vec(), tu.to_vec());
+            let (pool_v, pos_v, mut tl_v, mut tu_v) = (pool_b.to_vec(), pos_b.to_vec(), tl.to_vec(), tu.to_vec());
+            // one time in five the arrays are crowded first: every other slot (or nine in ten) is initialized with
+            // arbitrary tick data, as if other positions were bounded there - arrays that are full or one short of full
+            if w.r.gen_range(0..5) == 0 {
+                let all = w.r.gen::<bool>();
+                for v in [&mut tl_v, &mut tu_v] {
+                    if let Some(Ok(mut ta)) = codec::TickArray::decode(v) {
+                        for t in ta.ticks.iter_mut() {
+                            if !t.initialized && (all || w.r.gen_range(0..10) != 0) {
+                                *t = codec::Tick { initialized: true, liquidity_net: w.r.gen::<i64>() as i128, liquidity_gross: w.r.gen::<u64>() as u128 + 1, fee_growth_outside_a: w.r.gen(), fee_growth_outside_b: w.r.gen(), reward_growths_outside: [w.r.gen(), w.r.gen(), w.r.gen()] };
+                            }
+                        }
+                        *v = if ta.dynamic { ta.encode_dynamic() } else { ta.encode_fixed() };
+                    }
+                }
+                if kl == ku {
+                    tu_v = tl_v.clone();
+                }
+                acc.count("fn_diff_crowded_arrays");
+            }
             let upper = if kl == ku { None } else { Some(&tu_v[..]) };
             if let Some(d) = differential(&pool_v, &pos_v, &tl_v, upper, delta, ts, acc) {
                 acc.violation(
